@@ -5,6 +5,7 @@ import (
 	"go/constant"
 	"go/token"
 	"go/types"
+	"strings"
 
 	"golang.org/x/tools/go/packages"
 	"golang.org/x/tools/go/ssa"
@@ -217,3 +218,74 @@ func isTestFile(w *World, pos token.Pos) bool {
 }
 
 type ssaFunction = ssa.Function
+
+// localFreeExpr renders e with every identifier that denotes a local
+// variable, parameter or receiver replaced by its type in ‹›: the text no
+// longer depends on how locals are called.
+func localFreeExpr(p *packages.Package, e ast.Expr) string {
+	repl := map[*ast.Ident]string{}
+	ast.Inspect(e, func(n ast.Node) bool {
+		id, ok := n.(*ast.Ident)
+		if !ok {
+			return true
+		}
+		o := p.TypesInfo.Uses[id]
+		if o == nil {
+			o = p.TypesInfo.Defs[id]
+		}
+		v, ok := o.(*types.Var)
+		if !ok || v.IsField() || v.Parent() == nil || v.Parent() == v.Pkg().Scope() || v.Parent() == types.Universe {
+			return true
+		}
+		repl[id] = "‹" + types.TypeString(v.Type(), func(pk *types.Package) string { return pk.Name() }) + "›"
+		return true
+	})
+	if len(repl) == 0 {
+		return types.ExprString(e)
+	}
+	// print with replacements: substitute temporarily in a copy of the text
+	var sb strings.Builder
+	var walk func(n ast.Expr)
+	walk = func(n ast.Expr) {
+		switch x := n.(type) {
+		case *ast.Ident:
+			if s, ok := repl[x]; ok {
+				sb.WriteString(s)
+			} else {
+				sb.WriteString(x.Name)
+			}
+		case *ast.SelectorExpr:
+			walk(x.X)
+			sb.WriteString("." + x.Sel.Name)
+		case *ast.CallExpr:
+			walk(x.Fun)
+			sb.WriteString("(")
+			for i, a := range x.Args {
+				if i > 0 {
+					sb.WriteString(", ")
+				}
+				walk(a)
+			}
+			sb.WriteString(")")
+		case *ast.IndexExpr:
+			walk(x.X)
+			sb.WriteString("[")
+			walk(x.Index)
+			sb.WriteString("]")
+		case *ast.ParenExpr:
+			sb.WriteString("(")
+			walk(x.X)
+			sb.WriteString(")")
+		case *ast.StarExpr:
+			sb.WriteString("*")
+			walk(x.X)
+		case *ast.UnaryExpr:
+			sb.WriteString(x.Op.String())
+			walk(x.X)
+		default:
+			sb.WriteString(types.ExprString(n))
+		}
+	}
+	walk(e)
+	return sb.String()
+}
